@@ -152,6 +152,22 @@ fn tables(alpha: &[String], k: usize, prefix: &mut Vec<(String, String)>, f: &mu
     }
 }
 
+/// First occurrences of the symbols in the table's operands are in the order a, b, c.
+fn canonical(t: &[(String, String)]) -> bool {
+    let mut next = b'a';
+    for (a, b) in t {
+        for ch in a.bytes().chain(b.bytes()) {
+            if ch > next {
+                return false;
+            }
+            if ch == next {
+                next += 1;
+            }
+        }
+    }
+    true
+}
+
 fn random_table(rng: &mut SplitMix64, alpha: &[String], k: usize) -> Vec<(String, String)> {
     let mut strs: Vec<String> = alpha.to_vec();
     let mut t = Vec::new();
@@ -178,12 +194,19 @@ fn generate(seed: u64, n: usize, tier: &str, out: &mut impl Write) {
 
     // 1. exhaustive tables over {a,b,c}
     // (Coq parses the implementation's answers at roughly a numeral per millisecond, which
-    // bounds the volume: words up to 6 for <= 2 entries, up to 4 for all 3600 3-entry tables)
-    let (kmax, len) = if thorough { (3usize, 6usize) } else { (2, 4) };
+    // bounds the volume.)  Tables with <= 2 entries: all of them.  Tables with 3 entries
+    // (thorough): all of them up to renaming of the alphabet -- the canonical representative
+    // mentions a before b before c; the word set is closed under renaming and bpe_merge uses
+    // symbols only through equality, so the other 5/6 are the same runs with other names.
+    let (kmax, len) = if thorough { (3usize, 5usize) } else { (2, 4) };
     for k in 0..=kmax {
-        let tag = format!("exh-m{}", k);
+        let tag = if k == 3 { "exh-m3-canon".to_string() } else { format!("exh-m{}", k) };
         let l = if k == 3 { 4 } else { len };
-        tables(&abc, k, &mut Vec::new(), &mut |t| emit(out, &base_spec(t.to_vec()), &abc, l, &[], &tag));
+        tables(&abc, k, &mut Vec::new(), &mut |t| {
+            if k < 3 || canonical(t) {
+                emit(out, &base_spec(t.to_vec()), &abc, l, &[], &tag)
+            }
+        });
     }
     // the same small tables with a supplied vocabulary whose ids are scrambled
     for k in 1..=2 {
@@ -206,11 +229,11 @@ fn generate(seed: u64, n: usize, tier: &str, out: &mut impl Write) {
         }
     }}}}
     // 2. sampled deeper tables over {a,b,c}
-    let nsamp = if thorough { n } else { n / 2 };
+    let nsamp = n / 2;
     for i in 0..nsamp {
         let k = if thorough { 4 } else { 3 + (i % 2) };
         let t = random_table(&mut rng, &abc, k);
-        emit(out, &base_spec(t), &abc, if thorough { 5 } else { 4 }, &[], &format!("samp-m{}", k));
+        emit(out, &base_spec(t), &abc, 4, &[], &format!("samp-m{}", k));
     }
     // two-symbol alphabet, longer words: long runs of one symbol, deep tables
     let ab: Vec<String> = abc[..2].to_vec();
